@@ -1500,17 +1500,23 @@ class Gen:
         if op in ("&&", "||"):
             l, lt_ = self.ex(e.l, pre, "bool")
             pre2 = []
+            outer_log = self.log
+            self.log = set()
             r, rt = self.ex(e.r, pre2, "bool")
+            rebound = sorted(self.log, key=lambda v: v.order)     # state changed by the lazily evaluated operand: carried out
+            self.log = outer_log | self.log
             if lt_ != "bool" or rt != "bool":
                 raise Unsupported("`%s` on non-bool" % op, e.line)
             if not pre2:
                 return "(%s %s %s)" % (l, op, r), "bool"
             v = self.fresh()
-            inner = "\n".join("  " + x for x in pre2 + ["Flow.next %s" % r])
+            names = [x.lean for x in rebound]
+            tup = lambda val: val if not names else "(%s)" % ", ".join(names + [val])
+            inner = "\n".join("  " + x for x in pre2 + ["Flow.next %s" % tup(r)])
             if op == "&&":
-                pre.append("Flow.bind (\n  if %s then\n%s\n  else Flow.next false\n) fun %s =>" % (l, indent_text(inner, 1), v))
+                pre.append("Flow.bind (\n  if %s then\n%s\n  else Flow.next %s\n) fun %s =>" % (l, indent_text(inner, 1), tup("false"), tup(v)))
             else:
-                pre.append("Flow.bind (\n  if %s then Flow.next true else\n%s\n) fun %s =>" % (l, indent_text(inner, 1), v))
+                pre.append("Flow.bind (\n  if %s then Flow.next %s else\n%s\n) fun %s =>" % (l, tup("true"), indent_text(inner, 1), tup(v)))
             return v, "bool"
         cmp = op in ("==", "!=", "<", ">", "<=", ">=")
         w = None if cmp else want
